@@ -139,7 +139,12 @@ def run(ctx):
         sub = cases[:: max(1, len(cases) // 6000)]
         rca, ioa, _, _, _ = L.two_pass(pv, sub, impl2, model, impl_env={"ASAN_OPTIONS": "detect_leaks=0"})
         ref = {c: o for c, o in zip(cases, io)}
-        bada = [c for c, o in zip(sub, ioa) if ref.get(c) != o]
+        # outputs are comparable bit for bit only where neither the (address dependent) iteration
+        # order of the registered set nor the Eigen kernels can show: clipping off, no Eigen graph run
+        def comparable(c):
+            return not L.has_clip(c) and not re.search(r"rung \d+ \d+ 2", c)
+        bada = [c for c, o in zip(sub, ioa) if comparable(c) and ref.get(c) != o]
+        cov["asan_cases_compared_bitwise"] = sum(1 for c in sub if comparable(c))
         cov["asan_cases"] = len(sub)
         if rca != 0 or bada:
             ctx.violation("asan", {"kind": "sanitizer", "rc": rca, "case": bada[0] if bada else "<crash>", "witness": "asan"}, True,
